@@ -754,6 +754,26 @@ Proof.
   unfold same_up_to_inline_order. cbn. repeat split. apply (Permutation_rev (fr_inls nv_dup)).
 Qed.
 
+(* round 5: decisions with a dropped line: "FUNC 10 8 0 f" recognised, a 200000-byte line dropped by the recovery,
+   "10 4 7 1" recognised as a line record of the FUNC block that is still open; the hypotheses of
+   c11_parser_records_in_range / c11_encodings_exist / c11_text_driver_correct are met and the text driver answers *)
+Definition nv_ds : list (bool * Grammar.rle) :=
+  [(false, map (fun b => (b, 1)) [70;85;78;67;32;49;48;32;56;32;48;32;102]);
+   (true, [(97, 200000)]);
+   (false, map (fun b => (b, 1)) [49;48;32;52;32;55;32;49])].
+Example c11_nonvacuous_replay :
+  exists q st,
+    RM.C09.Model.replay Grammar.rle Grammar.pst Grammar.recog_pst Grammar.bump_pst Grammar.lineno_pst
+                        Grammar.init_pst nv_ds = inl q /\
+    RM.C09.Model.size Grammar.rle Grammar.cllen (map snd nv_ds) = 200024 /\
+    Grammar.p_lines q = 3 /\
+    RM.C11.Driver.table_of_text (Enc.nm_of q) (Enc.tg_of q) nv_ds = Ret (Some st) /\
+    fill_symbol Release st 4096 (4096 + 17) = Ret (mk_out (Some (0, 4112, 0)) None []).
+Proof.
+  eexists. eexists. split; [vm_compute; reflexivity|]. split; [vm_compute; reflexivity|].
+  split; [vm_compute; reflexivity|]. split; [vm_compute; reflexivity|vm_compute; reflexivity].
+Qed.
+
 (* round 4: three lookups (depths 0, 1 and the failing depth 2) at address 21 of nv_file2, with any extra fuel;
    the first FUNC of nv_file2 is isolated; a module ending at 2^64-1 between two others is found *)
 Example c11_nonvacuous_lookups :
